@@ -9,7 +9,13 @@ use crate::runner::guarded;
 use proptest::prelude::*;
 use sliding_features::View;
 
-const GAMMAS: [f64; 12] = [0.0, 0.1, 0.2, 0.3, 0.4, 0.5, 0.6, 0.7, 0.8, 0.9, 0.99, 0.999];
+/// gamma grid: every hundredth in [0, 0.99], then 0.995 and 0.999 (a defect confined to a band of gamma must not slip between grid points)
+fn gammas() -> Vec<f64> {
+    let mut v: Vec<f64> = (0..100).map(|i| i as f64 / 100.0).collect();
+    v.extend([0.995, 0.999]);
+    v
+}
+const N_GAMMAS: usize = 102;
 
 #[derive(Clone, Copy, PartialEq)]
 enum Class {
@@ -62,7 +68,7 @@ fn configs() -> Vec<Spec> {
             v.push(Spec::Eft(echo(), Box::new(Spec::Ema(echo(), 1 + n % 7)), n));
         }
     }
-    for g in GAMMAS {
+    for g in gammas() {
         v.push(Spec::LaguerreFilter(echo(), g));
     }
     v
@@ -301,7 +307,7 @@ fn chain_case(tier: Tier) -> BoxedStrategy<Case> {
         let i = Box::new(inner);
         match k {
             0 => Spec::Ema(i, n),
-            1 => Spec::LaguerreFilter(i, GAMMAS[g]),
+            1 => Spec::LaguerreFilter(i, gammas()[g]),
             2 => Spec::SuperSmoother(i, n),
             3 => Spec::Roofing(i, n, m),
             4 => Spec::CyberCycle(i, n),
@@ -311,7 +317,7 @@ fn chain_case(tier: Tier) -> BoxedStrategy<Case> {
             _ => Spec::Eft(i, Box::new(Spec::Ema(echo(), m)), n),
         }
     }
-    let one = move || (0usize..9, 3usize..=nmax, 0usize..GAMMAS.len(), 1usize..=8);
+    let one = move || (0usize..9, 3usize..=nmax, 0usize..N_GAMMAS, 1usize..=8);
     (one(), one(), 0i64..3, any::<u32>())
         .prop_map(|((k1, n1, g1, m1), (k2, n2, g2, m2), variant, seed)| Case { spec: Some(wrap(k1, n1, g1, m1, wrap(k2, n2, g2, m2, Spec::Echo))), ints: vec![variant, seed as i64], a: Rat(1, 1), ..Default::default() })
         .boxed()
@@ -337,7 +343,7 @@ fn chain_check(case: &Case) -> Verdict {
 
 pub fn clauses() -> Vec<Clause> {
     vec![
-        Clause::enumerated("C09", "C09/bounded/enumerated", "Enumerated: Ema, SuperSmoother, RoofingFilter(N, M in {1,3,10}), CyberCycle, TrendFlex, ReFlex (N >= 3), LaguerreRSI, EFT (N >= 2) for every N in 1..64 and {72,...,1024}; LaguerreFilter for gamma in {0,.1,...,.9,.99,.999}; horizon T = 100 max(windows, 1/(1-gamma), 25). Linear members: impulse response finite, max|h| on [T,2T] <= 1e-6 max|h| on [0,T], sum|h| does not grow from T to 4T; inputs with |x| <= 1 of length 4T (worst-case sign pattern x_t = sign h(L-1-t), noise, alternating, square wave of period 2N) stay within sum|h| and the worst case attains it. Non-linear members (TrendFlex, ReFlex <= 5; LaguerreRSI <= 1; |EFT| <= ln 199): finite and within the analytic bound on impulse, step, noise, alternating and resonant (period N) inputs of length 4T. Non-trivial: the response is not identically zero.", bounded_cases, bounded_check).with_shard(12),
+        Clause::enumerated("C09", "C09/bounded/enumerated", "Enumerated: Ema, SuperSmoother, RoofingFilter(N, M in {1,3,10}), CyberCycle, TrendFlex, ReFlex (N >= 3), LaguerreRSI, EFT (N >= 2) for every N in 1..64 and {72,...,1024}; LaguerreFilter for gamma in {0, .01, ..., .99, .995, .999}; horizon T = 100 max(windows, 1/(1-gamma), 25). Linear members: impulse response finite, max|h| on [T,2T] <= 1e-6 max|h| on [0,T], sum|h| does not grow from T to 4T; inputs with |x| <= 1 of length 4T (worst-case sign pattern x_t = sign h(L-1-t), noise, alternating, square wave of period 2N) stay within sum|h| and the worst case attains it. Non-linear members (TrendFlex, ReFlex <= 5; LaguerreRSI <= 1; |EFT| <= ln 199): finite and within the analytic bound on impulse, step, noise, alternating and resonant (period N) inputs of length 4T. Non-trivial: the response is not identically zero.", bounded_cases, bounded_check).with_shard(12),
         Clause::enumerated("C09", "C09/fading/enumerated", "Enumerated over the same configurations x 3 prefix pairs (50%-noise vs empty; 2^20 x larger vs small; alternating +-1000 vs zeros; and, for windows 3, 5, 16, 64 and every gamma, a 135 000-value noise prefix - past 2^16 and 2^17 updates - vs empty) followed by a common persistently exciting tail of 2T values (level 100, noise +-50): the maximum |out1 - out2| over tail positions [T,2T] must be <= 1e-6 x scale and <= 1e-3 x its maximum over [0,T]. Non-trivial: the two runs differed by > 1e-3 x scale right after merging.", fading_cases, fading_check).with_shard(12),
         Clause::generated("C09", "C09/chains/generated", "Generated chains of two recursive views (all 9 x 9 kinds, N in 3..24, thorough ..200): finite on bounded noise over 2T and fading memory as above, T from the largest parameter of the chain.", 400, 10_000, chain_case, chain_check).with_shard(8),
     ]
